@@ -71,6 +71,10 @@ def bodies_of(events):
 
 def prop_ok(case, r):
     mx, bd, msgs = case[1][0], case[1][1], case[1][2]
+    if r[0] == 254 and r[1] == 1:
+        return False, "the splitter and its consumer are blocked (no answer within 5 s) instead of terminating"
+    if r[0] == 254:
+        return True, ""       # not run: the harness stopped after three blocked cases (those are reported)
     if r[0] != 0:
         return False, "harness reported %s" % r
     events, res = r[1], r[2]
